@@ -79,7 +79,7 @@ def sse_encode(msgs, enc):
     return text
 
 
-def build_response(beh, req_id, marker, chunk_seed=None):
+def build_response(beh, req_id, marker, chunk_seed=None, foreign_id="someone-else"):
     """(httpx.Response | exception to raise)"""
     if beh["exc"] == "connect":
         return httpx.ConnectError("All connection attempts failed")
@@ -111,8 +111,11 @@ def build_response(beh, req_id, marker, chunk_seed=None):
         msgs = [notif(1), resp]
     elif body == "notifsThenResp":
         msgs = [notif(1), notif(2), resp]
+    elif body == "respThenNotif":
+        msgs = [resp, notif(1)]
     elif body == "wrongId":
-        msgs = [{"jsonrpc": "2.0", "id": "someone-else", "result": result}]
+        # the id of a request this client has not sent yet (it may well send it next)
+        msgs = [{"jsonrpc": "2.0", "id": foreign_id, "result": result}]
     elif body == "errNullId":
         msgs = [{"jsonrpc": "2.0", "id": None, "error": {"code": -32600, "message": "bad request", "data": {"marker": marker}}}]
     elif body == "errOtherId":
@@ -187,12 +190,13 @@ def run_sequences(seqs):
 
     async def one(seq, n=0):
         evs = []
-        state = {"i": 0, "hdr": None, "beh": None, "rid": None, "n": n}
+        state = {"i": 0, "hdr": None, "beh": None, "rid": None, "n": n, "foreign": "someone-else"}
 
         async def handler(request):
             state["hdr"] = request.headers.get("mcp-session-id", "absent")
             # every other sequence receives its bodies in pieces
-            r = build_response(state["beh"], state["rid"], state["i"] * 10, chunk_seed=(state["n"] * 31 + state["i"]) if state["n"] % 2 else None)
+            r = build_response(state["beh"], state["rid"], state["i"] * 10, chunk_seed=(state["n"] * 31 + state["i"]) if state["n"] % 2 else None,
+                               foreign_id=state["foreign"])
             if isinstance(r, Exception):
                 raise r
             return r
@@ -201,7 +205,12 @@ def run_sequences(seqs):
             params = StreamableHTTPParameters(url="http://verif.invalid/mcp", timeout=5.0)
             async with http_client(params) as (rs, ws):
                 for i, st in enumerate(seq, 1):
-                    state.update(i=i, beh=st["beh"], hdr="unsent")
+                    state.update(i=i, beh=st["beh"], hdr="unsent", foreign="someone-else")
+                    if i < len(seq) and seq[i]["kind"] == "request":
+                        nxt = concrete_id(seq[i]["idc"], i + 1)
+                        cur = concrete_id(st["idc"], i) if st["kind"] == "request" else None
+                        if nxt != cur or type(nxt) is not type(cur):
+                            state["foreign"] = nxt
                     if st["kind"] == "request":
                         rid = concrete_id(st["idc"], i)
                         state["rid"] = rid
